@@ -182,7 +182,9 @@ def make_pipefunc(fd: dict, tag: str = ""):
     defaults = {p: py_value(v) for p, v in (fd.get("defaults") or {}).items()}
     bound = {p: py_value(v) for p, v in (fd.get("bound") or {}).items()}
     outs = fd["outputs"]
-    ishape = fd.get("internal_shape") or None
+    # "decl_internal_shape": what PipeFunc(internal_shape=) is told (None / a WRONG shape when map(internal_shapes=) is to
+    # supply or override it); "internal_shape" stays what the function really returns
+    ishape = (fd["decl_internal_shape"] if "decl_internal_shape" in fd else fd.get("internal_shape")) or None
     orig_outs = list(outs)
     if fd.get("outperm") and len(outs) > 1:
         # the function is declared with the output names in reversed order and renamed position by position, so that
